@@ -34,7 +34,6 @@ type session struct {
 	tx *sql.SQLTx
 	// foreignCommits counts commits of other sessions since this transaction began
 	foreignCommits int
-	queriesAfterForeignCommit int
 }
 
 type harness struct {
@@ -213,7 +212,7 @@ func (h *harness) begin(s *session, ro bool) {
 		h.failf("s%d: cannot begin: %v", s.id, err)
 	}
 	s.st = newTxstate(h.committed, ro)
-	s.foreignCommits, s.queriesAfterForeignCommit = 0, 0
+	s.foreignCommits = 0
 	if ro {
 		h.c.Label("tx-read-only")
 	} else {
@@ -313,6 +312,9 @@ func (h *harness) execFailing(s *session, st *stmt) {
 		h.failf("s%d: transaction still open after failed statement %s (%v)", s.id, st.sql, err)
 	}
 	h.c.Label("stmt-" + st.label)
+	if st.label == "fail-ddl-in-read-only-tx" {
+		h.ghosts["zro"] = true
+	}
 	h.abort(s, "failed-statement")
 }
 
